@@ -92,9 +92,45 @@ func lensOf(ws []fullWrite) []int {
 	return l
 }
 
+// execC05Tokens: the per-write token is what keeps the chunks of two writes of one key
+// apart; it has to differ between any two writes. Thousands of small writes through one
+// handler, the token read from each metadata entry the backend received.
+func execC05Tokens(t *testing.T, p Plan, src kernel.Source) Result {
+	return inBubble(t, p.Seed, src, func(w *kernel.World, res *Result) {
+		tier := w.AddTier("l1", "/sim/chunked.sock")
+		tier.Fake.Limits = false
+		h := chunked.NewHandler(w.DialBackend("l1", "h0"))
+		seen := map[string]int{}
+		n := int(p.X["n"])
+		for i := 0; i < n; i++ {
+			key := fmt.Sprintf("tk%d", i)
+			r, ok := runTask(w, h, wire.Op{Kind: "set", Key: key, Data: []byte("v"), Opaque: uint32(i)}, false)
+			if !ok || r.Err != nil || r.Panic != "" {
+				res.Infra = fmt.Sprintf("write %d failed: ok=%v %s", i, ok, r)
+				return
+			}
+			m := tier.Fake.Store.Peek(key + "-meta")
+			if m == nil || len(m.Value) != 40 {
+				res.Infra = fmt.Sprintf("write %d left no 40-byte metadata entry", i)
+				return
+			}
+			tok := string(m.Value[24:40])
+			if j, dup := seen[tok]; dup {
+				res.V = &Violation{Prop: "C05", Rule: "token_reuse", Class: "token_reuse", Msg: fmt.Sprintf("write #%d carries the same 16-byte token as write #%d (%d writes apart): chunks of the two writes of one key could not be told apart, a read could mix them", i, j, i-j)}
+				return
+			}
+			seen[tok] = i
+		}
+		res.probe("token_sweeps")
+	})
+}
+
 func execC05(t *testing.T, p Plan, src kernel.Source) Result {
 	if p.Mode == "interleave" {
 		return execC05Interleave(t, p, src)
+	}
+	if p.Mode == "tokens" {
+		return execC05Tokens(t, p, src)
 	}
 	return inBubble(t, p.Seed, src, func(w *kernel.World, res *Result) {
 		w.LogEvents = p.X["log"] != 0
@@ -318,6 +354,12 @@ func c05Value(g *gen, keylen, chunks int, exact bool) []byte {
 // value of another length, read by get and by gat.
 func enumC05(tier string) []Plan {
 	var out []Plan
+	for i, n := range []int64{1200, 2600, 6000} {
+		if tier != "thorough" && n > 3000 {
+			continue
+		}
+		out = append(out, Plan{Prop: "C05", Seed: uint64(0xC05F00 + i), Mode: "tokens", X: map[string]int64{"n": n}})
+	}
 	id := 0
 	keyLens := []int{1, 10, 100}
 	maxN := 6
@@ -415,7 +457,7 @@ func genC05(seed uint64, tier string) Plan {
 func init() {
 	register(&Prop{
 		ID: "C05", Gen: genC05, Exec: execC05, Enumerate: enumC05, Level: "fault_enumeration",
-		Rule:       "(a) fault = loss of backend entries. For key lengths {1, 10, 100}, n = 0..6 chunks, no earlier value / an earlier value of 1 chunk / of n+2 chunks, every non-empty subset of {metadata, chunk 0..n-1} is removed from the simulated backend and the key is read through the real chunked handler by get and by gat, then read again; in a third of the cases every write carries a lifetime, and after it (and the gat's) has passed an add must succeed and be read back whole (thorough: all 2^(n+1)-1 subsets for every n; quick: all for n <= 4, a quarter for n = 5, 6, half for key length 100). (b) seeded interleavings: two writer tasks (values of different chunk counts, unique contents, different flags) and one or two reader tasks, in a third of the runs also a task that appends / prepends 1-2 unique payloads and reads, each on its own handler + backend connection, same key; the kernel chooses among task starts, individual backend requests and reply segments. Oracle: every read returns a miss or exactly the bytes and flags of one single set (with appends / prepends in the run: of one single set with a selection of the payloads applied whole). Every case is non-trivial; distinct = distinct plan hash",
+		Rule:       "(0) token sweeps: 1200 and 2600 (thorough also 6000) writes through one handler, the 16-byte per-write token read from every metadata entry must never repeat. (a) fault = loss of backend entries. For key lengths {1, 10, 100}, n = 0..6 chunks, no earlier value / an earlier value of 1 chunk / of n+2 chunks, every non-empty subset of {metadata, chunk 0..n-1} is removed from the simulated backend and the key is read through the real chunked handler by get and by gat, then read again; in a third of the cases every write carries a lifetime, and after it (and the gat's) has passed an add must succeed and be read back whole (thorough: all 2^(n+1)-1 subsets for every n; quick: all for n <= 4, a quarter for n = 5, 6, half for key length 100). (b) seeded interleavings: two writer tasks (values of different chunk counts, unique contents, different flags) and one or two reader tasks, in a third of the runs also a task that appends / prepends 1-2 unique payloads and reads, each on its own handler + backend connection, same key; the kernel chooses among task starts, individual backend requests and reply segments. Oracle: every read returns a miss or exactly the bytes and flags of one single set (with appends / prepends in the run: of one single set with a selection of the payloads applied whole). Every case is non-trivial; distinct = distinct plan hash",
 		Real:       realChunked,
 		Stub:       stubChunked,
 		FaultKinds: []string{"entry_loss"},
